@@ -10,7 +10,7 @@ import LenaModel.Model.C18Spec
       | {"op":"drop","c":id,"rc":bool} | {"op":"finalize"}
   el  = {"k":"map","a":int,"raise":k|null} | {"k":"cache","c":id,"rc":bool}
       | {"k":"setctx","key":k,"v":v} | {"k":"tcache","t":t,"key":k,"rc":bool}   (case fields "nb","V": see `nameId`)
-  obs = run:  {"out":[ints],"end":…,"ev":[…],"snaps":[[final0,tmp0,final1,tmp1,…],…],"fs":[{"final":[ints]|null,"tmp":bool},…],
+  obs = run:  {"out":[ints],"end":…,"ev":["s0","m1:0","s$",…],"snaps":["0101…" (final0 tmp0 final1 tmp1 …),…],"fs":[{"final":[ints]|null,"tmp":bool},…],
                "ref":{"vals":[ints],"exc":name|null}}      (ref = `pipeFlow` on the file system before the run)
         drop: {"r":"ok"|name,"fs":…}     finalize: {"fs":…}
   op  = {"op":"splitrun","src":…,"outer":[el,…],"branch":[el,…],"bufsize":n|null,"take":k|null,"fin":…}
@@ -69,18 +69,19 @@ def endName : End → String
   | .raised e => excName e
 
 def evJson : Ev → Json
-  | .srcYield i => Json.arr #["s", ofNat i]
-  | .srcRaise i => Json.arr #["s!", ofNat i]
-  | .srcEnd => Json.arr #["s$"]
-  | .step j i => Json.arr #["m", ofNat j, ofNat i]
-  | .stepRaise j i => Json.arr #["m!", ofNat j, ofNat i]
+  | .srcYield i => Json.str s!"s{i}"
+  | .srcRaise i => Json.str s!"s!{i}"
+  | .srcEnd => Json.str "s$"
+  | .step j i => Json.str s!"m{j}:{i}"
+  | .stepRaise j i => Json.str s!"m!{j}:{i}"
 
 def fsJson (nc : Nat) (fs : FS) : Json :=
   ofList (fun c => Json.mkObj [("final", ofOpt ofIntList (fs c).final), ("tmp", Json.bool (fs c).tmp.isSome)])
     (List.range nc)
 
 def bitsJson (nc : Nat) (fs : FS) : Json :=
-  Json.arr ((List.range nc).flatMap (fun c => [Json.bool (fs c).final.isSome, Json.bool (fs c).tmp.isSome])).toArray
+  Json.str (String.join ((List.range nc).map (fun c =>
+    (if (fs c).final.isSome then "1" else "0") ++ (if (fs c).tmp.isSome then "1" else "0"))))
 
 /-- a demand no flow of this pipeline can reach -/
 def bigDemand (nc : Nat) (fs : FS) (s : SrcSpec) : Nat :=
